@@ -292,7 +292,12 @@ func (tf tFiles) newIndexIterator(tops *tOps, icmp *iComparer, slice *util.Range
 		} else {
 			limit = tf.Len()
 		}
-		tf = tf[start:limit]
+		if start < limit {
+			tf = tf[start:limit]
+		} else {
+			// Empty range (including limit before start).
+			tf = nil
+		}
 	}
 	return iterator.NewArrayIndexer(&tFilesArrayIndexer{
 		tFiles: tf,
